@@ -165,13 +165,32 @@ def _log_call(rec, fid, k, x, val, alt):
     return ent
 
 
+def xmap(case, x):
+    """Hand-made restatements (C10): the functions are stated on a mapped point."""
+    m = case.get("xmap")
+    if m is None:
+        return x
+    if m["kind"] == "embed":
+        full = np.empty(m["n_full"])
+        fixed = {int(k): v for k, v in m["fixed"].items()}
+        free = [i for i in range(m["n_full"]) if i not in fixed]
+        for i, v in fixed.items():
+            full[i] = v
+        full[free] = x
+        return full
+    if m["kind"] == "affine":
+        y = x * np.array(m["s"], float) + np.array(m["m"], float)
+        return np.clip(y, np.array(m["lb"], float), np.array(m["ub"], float))
+    raise common.HarnessError("unknown xmap")
+
+
 def make_objective(rec, spec, target=None):
     def fun(x, *args):
         k = rec.tick("obj")
         xx = np.array(x, dtype=float, copy=True)
         alt = rec.dev.get(("obj", k))
         if alt is None:
-            val = eval_scalar(spec, xx) if xx.shape == (rec.case["n"],) else NAN
+            val = eval_scalar(spec, xmap(rec.case, xx)) if xx.shape == (rec.case["n"],) else NAN
         else:
             rec.used_dev.add(("obj", k))
             if alt == "target":
@@ -200,7 +219,8 @@ def make_constraint(rec, j, con):
         k = rec.tick(fid)
         xx = np.array(x, dtype=float, copy=True)
         if xx.shape == (rec.case["n"],):
-            vals = [eval_scalar(s, xx) for s in specs]
+            xm = xmap(rec.case, xx)
+            vals = [eval_scalar(s, xm) for s in specs]
         else:
             vals = [NAN for _ in specs]
         alt = rec.dev.get((fid, k))
